@@ -8,7 +8,12 @@ patch="$(readlink -f "$1")"; shift
 wt=$(mktemp -d /tmp/verif-mut.XXXXXX)
 git -C /repo worktree add --detach "$wt" HEAD >/dev/null 2>&1 || { echo "worktree failed"; exit 2; }
 trap 'git -C /repo worktree remove --force "$wt" >/dev/null 2>&1; rm -rf "$wt"' EXIT
-if ! git -C "$wt" apply "$patch"; then echo "patch does not apply"; exit 2; fi
+# a patch written against an older tree: fall back to a three-way merge on
+# the blobs it names, and give up only when that leaves conflicts
+if ! git -C "$wt" apply "$patch" 2>/dev/null; then
+  if ! git -C "$wt" apply --3way "$patch" >/dev/null 2>&1 || git -C "$wt" diff --name-only --diff-filter=U | grep -q .; then echo "patch does not apply"; exit 2; fi
+  git -C "$wt" reset -q
+fi
 # builds of scratch worktrees go to a throw-away build cache (each tree would
 # otherwise leave hundreds of megabytes in the shared one)
 export GOCACHE="$wt.gocache"
